@@ -102,6 +102,51 @@ pub mod spec_server {
         ls_from(view, class, n, 0)
     }
 
+    /// `s` is a (non-strict) suffix of `n` in label terms: `n` is equal to or a subdomain of `s`
+    /// (same text as prelude/name_labels.rs `is_suffix`; specs/zone.rs `at_or_below(n, s)` is the same formula).
+    pub open spec fn is_suffix(s: Path, n: Path) -> bool {
+        s.len() <= n.len() && n.skip(n.len() - s.len()) == s
+    }
+
+    /// Declarative reading of `ls_from` (PROVED; same statement and proof as specs/catalog.rs
+    /// `lemma_ls_from_char`, here over `Map` / `u16` classes): the result is filed under a suffix
+    /// of `n`, and no longer suffix of `n` is filed under `class`.
+    pub proof fn lemma_ls_from_char<E>(view: Map<(u16, Path), E>, class: u16, n: Path, from: int)
+        requires 0 <= from,
+        ensures
+            match ls_from(view, class, n, from) {
+                Some(e) => exists|i: int| from <= i < n.len() && #[trigger] view.contains_key((class, n.skip(i))) && view[(class, n.skip(i))] == e
+                    && is_suffix(n.skip(i), n)
+                    && (forall|j: int| from <= j < i ==> !#[trigger] view.contains_key((class, n.skip(j)))),
+                None => forall|j: int| from <= j < n.len() ==> !#[trigger] view.contains_key((class, n.skip(j))),
+            },
+        decreases n.len() - from
+    {
+        if from >= n.len() {
+        } else if view.contains_key((class, n.skip(from))) {
+            assert(n.skip(n.len() - n.skip(from).len()) =~= n.skip(from));
+        } else {
+            lemma_ls_from_char(view, class, n, from + 1);
+            match ls_from(view, class, n, from + 1) {
+                Some(e) => {
+                    let i = choose|i: int| from + 1 <= i < n.len() && #[trigger] view.contains_key((class, n.skip(i))) && view[(class, n.skip(i))] == e
+                        && is_suffix(n.skip(i), n)
+                        && (forall|j: int| from + 1 <= j < i ==> !#[trigger] view.contains_key((class, n.skip(j))));
+                    assert(forall|j: int| from <= j < i ==> !#[trigger] view.contains_key((class, n.skip(j)))) by {
+                        assert forall|j: int| from <= j < i implies !#[trigger] view.contains_key((class, n.skip(j))) by {
+                            if j == from {} else {}
+                        }
+                    }
+                }
+                None => {
+                    assert forall|j: int| from <= j < n.len() implies !#[trigger] view.contains_key((class, n.skip(j))) by {
+                        if j == from {} else {}
+                    }
+                }
+            }
+        }
+    }
+
     /// [C07] QTYPEs that get NOTIMP: IXFR 251, AXFR 252, MAILB 253, MAILA 254.
     pub open spec fn qtype_unsupported(t: u16) -> bool { 251 <= t <= 254 }
     pub open spec fn qclass_any() -> u16 { 255 }
